@@ -28,7 +28,7 @@ for m in cat['edit']:
         for prop in m.get('breaks', []) + m.get('holds', []):
             t0 = time.time()
             r = subprocess.run([os.path.join(ROOT, 'check'), prop, '--no-evidence'], capture_output=True, text=True,
-                               env=dict(os.environ, VERIF_REPO=tmp))
+                               env=dict(os.environ, VERIF_REPO=tmp, VERIF_NO_REPLAY_SEARCH='1'))
             first = (r.stdout.strip().splitlines() or [''])[0][:160]
             res[prop] = (r.returncode, first, time.time() - t0)
         ok = all(res[p][0] == 1 for p in m.get('breaks', [])) and all(res[p][0] == 0 for p in m.get('holds', []))
